@@ -1,10 +1,12 @@
 #!/bin/sh
-# Offline setup: build the orchestrator and warm the build cache of every child variant.
+# Offline setup: build the orchestrator and warm the Go build cache with the repository packages
+# (each check builds its own small child binary from /repo's working tree when it runs).
 cd "$(dirname "$0")" || exit 1
 export GOFLAGS=-mod=mod GOPROXY=off GOSUMDB=off GOTOOLCHAIN=local CGO_ENABLED=1
 mkdir -p bin evidence replays work
 cd harness || exit 1
 go build -o ../bin/vcheck ./cmd/vcheck || exit 1
-go build -tags verif -o ../bin/vchild ./cmd/vchild || exit 1
-go build -race -gcflags=all=-d=checkptr=0 -tags verif -o ../bin/vchild-race ./cmd/vchild || exit 1
+# warm the cache (plain and race); failures here are not fatal - every check rebuilds anyway
+go build -tags verif ./env/ ./forge/ ./mon/ ./stategen/ ./model/ ./kit/ 2>/dev/null
+go build -race -gcflags=all=-d=checkptr=0 -tags verif ./env/ ./forge/ ./mon/ ./stategen/ 2>/dev/null
 echo setup ok
